@@ -6,22 +6,23 @@
    makes the next wait return (several wake-ups may be reported together).
    Queue: accepted messages are handed over exactly once, in FIFO order; when the queue is full
    the overflow policy decides: DROP_OLDEST discards the oldest accepted message and accepts the
-   new one, otherwise the new one is refused.
+   new one, BLOCK_WRITER makes the writer wait until a dequeue made room, otherwise the new one is refused.
    Worker: join after signal_stop terminates and returns TRUE; join with a timeout on a worker
    that was not stopped returns FALSE after the timeout instead of hanging.               *)
 EXTENDS Integers, Sequences, FiniteSets, Bags
 
 VARIABLES posted,    \* bag of <<key, data>> posted and not yet delivered
           wakes,     \* number of wake-ups not yet reported
-          q, cap, dropOldest, dropped,
+          q, cap, policy, dropped,   \* policy: "refuse" | "drop" (drop oldest) | "block" (writer waits for room)
+          blocked,   \* messages of writers waiting for room (policy "block")
           wstate     \* "none" | "running" | "stopping" | "joined"
-vars == <<posted, wakes, q, cap, dropOldest, dropped, wstate>>
+vars == <<posted, wakes, q, cap, policy, dropped, blocked, wstate>>
 
-Init == posted = EmptyBag /\ wakes = 0 /\ q = <<>> /\ cap = 0 /\ dropOldest = FALSE /\ dropped = 0 /\ wstate = "none"
+Init == posted = EmptyBag /\ wakes = 0 /\ q = <<>> /\ cap = 0 /\ policy = "refuse" /\ dropped = 0 /\ blocked = <<>> /\ wstate = "none"
 
 Post(key, data, ok) == /\ ok /\ posted' = posted (+) SetToBag({<<key, data>>})
-                       /\ UNCHANGED <<wakes, q, cap, dropOldest, dropped, wstate>>
-Wake == wakes' = wakes + 1 /\ UNCHANGED <<posted, q, cap, dropOldest, dropped, wstate>>
+                       /\ UNCHANGED <<wakes, q, cap, policy, dropped, blocked, wstate>>
+Wake == wakes' = wakes + 1 /\ UNCHANGED <<posted, q, cap, policy, dropped, blocked, wstate>>
 
 \* a wait returned: evs = bag of completion events <<key, data>>, nwake = number of wake-up events,
 \* full = the caller's event array was filled completely (the rest stays pending for the next wait)
@@ -32,21 +33,31 @@ Wait(evs, nwake, full) ==
      ELSE /\ evs = posted                             \* everything posted, each exactly once, unmerged
           /\ (wakes > 0) = (nwake > 0) /\ nwake <= wakes
           /\ posted' = EmptyBag /\ wakes' = 0
-  /\ UNCHANGED <<q, cap, dropOldest, dropped, wstate>>
+  /\ UNCHANGED <<q, cap, policy, dropped, blocked, wstate>>
 
-QCreate(c, drop) == /\ cap' = c /\ dropOldest' = drop /\ q' = <<>> /\ dropped' = 0 /\ UNCHANGED <<posted, wakes, wstate>>
+QCreate(c, pol) == /\ cap' = c /\ policy' = pol /\ q' = <<>> /\ dropped' = 0 /\ blocked' = <<>> /\ UNCHANGED <<posted, wakes, wstate>>
+\* enqueue returned ok (policy "block": it returned without having to wait)
 Enq(m, ok) ==
   /\ IF Len(q) < cap THEN ok /\ q' = Append(q, m) /\ dropped' = dropped
-     ELSE IF dropOldest THEN ok /\ q' = Append(Tail(q), m) /\ dropped' = dropped + 1
-     ELSE ~ok /\ q' = q /\ dropped' = dropped
-  /\ UNCHANGED <<posted, wakes, cap, dropOldest, wstate>>
+     ELSE IF policy = "drop" THEN ok /\ q' = Append(Tail(q), m) /\ dropped' = dropped + 1
+     ELSE policy = "refuse" /\ ~ok /\ q' = q /\ dropped' = dropped
+  /\ UNCHANGED <<posted, wakes, cap, policy, blocked, wstate>>
+\* policy "block": the queue is full, the writer waits (nothing is lost, nothing is overwritten)
+EnqBlocked(m) ==
+  /\ policy = "block" /\ Len(q) >= cap /\ blocked' = Append(blocked, m)
+  /\ UNCHANGED <<posted, wakes, q, cap, policy, dropped, wstate>>
+\* a waiting writer found room: its message goes to the tail
+EnqResumed(m, ok) ==
+  /\ ok /\ blocked # <<>> /\ m = Head(blocked) /\ Len(q) < cap
+  /\ q' = Append(q, m) /\ blocked' = Tail(blocked)
+  /\ UNCHANGED <<posted, wakes, cap, policy, dropped, wstate>>
 Deq(m, ok) ==
   /\ IF q = <<>> THEN ~ok /\ q' = q ELSE ok /\ m = Head(q) /\ q' = Tail(q)
-  /\ UNCHANGED <<posted, wakes, cap, dropOldest, dropped, wstate>>
+  /\ UNCHANGED <<posted, wakes, cap, policy, dropped, blocked, wstate>>
 QStats(size, ndropped) == size = Len(q) /\ ndropped = dropped /\ UNCHANGED vars
 
-WCreate == wstate = "none" /\ wstate' = "running" /\ UNCHANGED <<posted, wakes, q, cap, dropOldest, dropped>>
-WStop == wstate \in {"running", "stopping"} /\ wstate' = "stopping" /\ UNCHANGED <<posted, wakes, q, cap, dropOldest, dropped>>
+WCreate == wstate = "none" /\ wstate' = "running" /\ UNCHANGED <<posted, wakes, q, cap, policy, dropped, blocked>>
+WStop == wstate \in {"running", "stopping"} /\ wstate' = "stopping" /\ UNCHANGED <<posted, wakes, q, cap, policy, dropped, blocked>>
 \* join(timeout): returned = it came back at all within the allowed time; ok = its result;
 \* long = the timeout leaves the worker ample time to notice the stop request (or is infinite)
 WJoin(returned, ok, long) ==
@@ -55,6 +66,6 @@ WJoin(returned, ok, long) ==
   /\ IF wstate = "stopping"
      THEN /\ (long => ok) /\ wstate' = IF ok THEN "joined" ELSE wstate
      ELSE ~ok /\ wstate' = wstate                                \* still running: the timeout expires
-  /\ UNCHANGED <<posted, wakes, q, cap, dropOldest, dropped>>
-WDestroy == wstate' = "none" /\ UNCHANGED <<posted, wakes, q, cap, dropOldest, dropped>>
+  /\ UNCHANGED <<posted, wakes, q, cap, policy, dropped, blocked>>
+WDestroy == wstate' = "none" /\ UNCHANGED <<posted, wakes, q, cap, policy, dropped, blocked>>
 =============================================================================
